@@ -176,6 +176,13 @@ func c20Prop(c *sim.Case) {
 			s.file = filepath.Join(e.dir, fmt.Sprintf("ca-%d.pem", atomic.AddInt64(&c20File, 1)))
 			_ = os.WriteFile(s.file, e.cas[s.caIdx].PEM, 0o644)
 			s.loadCA = s.caIdx
+			if sim.Weighted(c, "file-empty-at-load", 4, 1) == 1 {
+				// the file exists but holds nothing yet (a volume that is populated later): no CA of its own until a
+				// later content is picked up - and, a CA being configured, skip_verify_peer_cert stays ignored
+				_ = os.WriteFile(s.file, nil, 0o644)
+				s.loadCA = -3
+				c.Class("ca-file-empty-at-load")
+			}
 		}
 		skipPick := sim.Pick(c, "skip", 9)
 		if variation >= 0 && variation != 0 {
